@@ -562,18 +562,35 @@ theorem windows_absolute_name_refused :
     staticViewOv exOvFs { exOvView with ovs := [] } none false ["C:".toList, "x".toList] = .notFound ∧
     staticViewOv exOvFs { exOvView with ovs := [] } none false ["x".toList] = .notFound := by decide
 
-/-- PARTIAL (finding F-C16h): "404, redirect or a file" still fails where an UNGUARDED later pkg_resources call
-raises — (A) a directory named like a drive at the root of a package-root view, requested with a slash (index
-name `c:/index.html`); (B) a whole-package filesystem override that has `\x` while the variant `\x.gz` falls
-through to the package. -/
-theorem unguarded_call_raises :
+/-- the regression witnesses of the repaired F-C16h (cb07c73): the later pkg_resources calls (`find_resource_path`)
+treat a refused name as missing — (A) a directory named like a drive at the root of a package-root view, requested
+with a slash (index name `c:/index.html`): 404; (B) a whole-package filesystem override that has `\x` while the
+variant `\x.gz` would fall through to the package: the plain file is served, with or without encodings. -/
+theorem refused_names_are_missing :
     let fsA : Fs := { exOvFs with isDir := fun p => p = "/opt/pkg/c:".toList || exOvFs.isDir p,
                                   isThere := fun p => p = "/opt/pkg/c:".toList || exOvFs.isThere p }
     let fsB : Fs := { exOvFs with isThere := fun p => p = "/srv/ov/\\x".toList || exOvFs.isThere p }
-    staticViewOv fsA { exOvView with ovs := [] } none true ["c:".toList] = .valueError ∧
-    staticViewOv fsB { exOvView with ovs := [{ path := [], src := .fs "/srv/ov/".toList }] } none false ["\\x".toList] = .valueError ∧
+    staticViewOv fsA { exOvView with ovs := [] } none true ["c:".toList] = .notFound ∧
+    staticViewOv fsB { exOvView with ovs := [{ path := [], src := .fs "/srv/ov/".toList }] } none false ["\\x".toList]
+      = .file "/srv/ov/\\x".toList none false ∧
     staticViewOv fsB { v := { exOvView.v with encs := [] }, ovs := [{ path := [], src := .fs "/srv/ov/".toList }] } none false
       ["\\x".toList] = .file "/srv/ov/\\x".toList none false := by decide
+
+/-- **The outcomes of a package-relative view with overrides** (full; no exception is left): 404, a redirect, or a
+regular file that lies strictly inside the static root or inside what a declared override was declared with. -/
+theorem override_outcomes (fs : Fs) (w : OvView) (hw : OvWf w)
+    (hroot : pkgIsDir fs w (pkgResourcePath w.v.docroot []) = true) (ae : Option (List Enc)) (slash : Bool)
+    (segs : List Seg) :
+    staticViewOv fs w ae slash segs = .notFound ∨ staticViewOv fs w ae slash segs = .redirect ∨
+      ∃ p e b, staticViewOv fs w ae slash segs = .file p e b ∧ fs.isDir p = false ∧
+        (Under (pkgRoot w.v) p ∨ ∃ o ∈ w.ovs, InOverride o p) := by
+  rcases staticViewOv_cases fs w hw.1 ae slash segs with h | h | ⟨p, e, b, h⟩
+  · exact .inl h
+  · exact .inr (.inl h)
+  · refine .inr (.inr ⟨p, e, b, h, ?_, staticViewOv_where fs w hw hroot ae slash segs p (.inl ⟨e, b, h⟩)⟩)
+    -- the file served was a candidate, and candidates are not directories
+    have hnd := staticViewOv_file_not_dir fs w hw.1 ae slash segs p e b h
+    exact hnd
 
 end Pyr.Static
 
